@@ -104,7 +104,7 @@ type Movie struct {
 	MovieDuration    uint64
 	NextTrackID      uint32
 	Tracks           []*Track
-	MdatStart        uint64 // start of the first mdat box (header)
+	MdatStart        uint64 // start of the first non-empty mdat box (header); of the first one if all are empty
 	MdatPayloadStart uint64
 	MdatPayloadSize  uint64
 	NrMdat           int
@@ -195,7 +195,8 @@ func ParseProgressive(file []byte) (*Movie, error) {
 			}
 			moov = b
 		case "mdat":
-			if m.NrMdat == 0 {
+			// the media data box is the first non-empty one (empty extra mdat boxes are legal); NrMdat counts all
+			if m.MdatPayloadSize == 0 {
 				m.MdatStart, m.MdatPayloadStart, m.MdatPayloadSize = b.Start, b.Start+b.HdrLen, b.Size-b.HdrLen
 			}
 			m.NrMdat++
